@@ -108,6 +108,26 @@ def _run_job(job):
     for x in obls:
         x.entry = e
     discharge_local(obls, timeout_ms=_W['timeout_ms'], seed=_W['seed'])
+    # vacuity guard: the hypotheses of a path (facts + path condition) must not be contradictory, or everything on it "holds".
+    # quick: the path with the most hypotheses of this case; thorough: every path
+    import z3 as _z3
+    from pyvc.vc import Obligation
+    bypath = {}
+    for o in obls:
+        if o.goal is not None and o.kind == 'post':     # paths that return normally (an unexpected-exception path is proved by being infeasible)
+            if o.path not in bypath or len(o.hyps) > len(bypath[o.path].hyps):
+                bypath[o.path] = o
+    chosen = list(bypath.values())
+    if _W.get('tier') != 'thorough' and chosen:
+        chosen = [max(chosen, key=lambda o: len(o.hyps))]
+    for o in chosen:
+        sv = _z3.Solver()
+        sv.set('timeout', 1500)
+        sv.add(*o.hyps)
+        if sv.check() == _z3.unsat:
+            v = Obligation(o.prop, o.contract, o.case, 'vacuity.hypotheses_consistent', o.path, [], None, kind='error')
+            v.status, v.reason = 'error', 'the hypotheses of this path are contradictory (every obligation on it would hold vacuously)'
+            obls.append(v)
     extra = []
     for o in obls:
         if o.status != 'violated':
@@ -177,7 +197,7 @@ def main():
             errors.append(f'loading {m}: {type(e).__name__}: {e}')
             traceback.print_exc()
     known = [k for k in load_known() if k.get('property') == prop and not k.get('fixed')]
-    timeout_ms = 20000 if tier == 'quick' else 60000
+    timeout_ms = 45000 if tier == 'quick' else 120000   # wall-clock budgets per rung: sized for a fully loaded 16-core machine
     jobs = []
     for ei, e in enumerate(E.registry):
         if prop in e['props']:
